@@ -15,7 +15,10 @@ func lvlOf(tier string) int {
 
 func finish(ms []*MapScen, prop string, classes int, checkFn bool) []*Scenario {
 	for _, m := range ms {
-		m.Prop, m.Classes, m.CheckFn = prop, classes, checkFn
+		m.Prop, m.CheckFn = prop, checkFn
+		if m.Classes == 0 {
+			m.Classes = classes // (a scenario may have narrowed its own oracle classes)
+		}
 	}
 	return toScenarios(ms)
 }
@@ -311,6 +314,16 @@ func genC16Maps(level int) []*MapScen {
 		stallers := []MIn{opStore, opDelete, opLaS, opCPark, opCDel, opLoC, opClear, opRange}
 		if ci >= 2 && level == 0 {
 			stallers = []MIn{opStore, opDelete, opCPark, opClear} // secondary key types: the core pairs
+		}
+		if c == CMap {
+			// a present key holding the nil interface value: its lookups and hit paths do not wait either
+			for _, rd := range []MIn{opLoad, opLoS, opLoC} {
+				for _, st := range []MIn{opStore, opCPark, opDelete} {
+					ms := &MapScen{Rel: RelSD, NKeys: 2, Init: []int{1, 1}, Table: TPlain, NilValue: true, Threads: [][]MIn{{on(rd, 0)}, {on(st, 1)}}}
+					add(ms)
+					ms.Classes = OMon
+				}
+			}
 		}
 		for _, rd := range readers {
 			hit := rd.Op == MLoadOrStore || rd.Op == MLoadOrCompute
